@@ -4,18 +4,18 @@
 # suite still passes, runs the check (expected: exit 1 with a VIOLATION line), then reverts /repo.
 set -u
 PATCH=$(readlink -f "$1"); ID=$2; TIER=${3:-quick}; NOTESTS=${4:-}
-. /verif/env.sh
-cd /repo
+. "$(dirname "$(readlink -f "$0")")/env.sh"
+cd ${REPO_DIR:-/repo}
 if ! git diff --quiet; then echo "mutate: /repo has uncommitted changes"; exit 2; fi
 git apply "$PATCH" || { echo "mutate: patch does not apply"; exit 2; }
-trap 'git -C /repo checkout -- . ; git -C /repo clean -fdq' EXIT
+trap 'git -C ${REPO_DIR:-/repo} checkout -- . ; git -C ${REPO_DIR:-/repo} clean -fdq' EXIT
 if [ -z "$NOTESTS" ]; then
   if ! go build ./... 2>/tmp/mutate_build.log; then echo "mutate: does not compile"; cat /tmp/mutate_build.log; exit 2; fi
   if ! go test -vet=off -count=1 ./... >/tmp/mutate_tests.log 2>&1; then echo "mutate: repo tests FAIL with this patch (not a valid mutant)"; tail -5 /tmp/mutate_tests.log; exit 2; fi
   echo "mutate: repo tests pass with patch"
 fi
-cd /verif
-VERIF_DIR=/verif ./check "$ID" "$TIER" > /tmp/mutate_check.log 2>&1
+cd "$(dirname "$(readlink -f "$0")")"
+./check "$ID" "$TIER" > /tmp/mutate_check.log 2>&1
 rc=$?
 grep -E "^VIOLATION|^KNOWN-FINDING" /tmp/mutate_check.log | head -5
 tail -1 /tmp/mutate_check.log
